@@ -215,10 +215,11 @@ class PyIter:
 
 class LazyIter:
     """adaptor: kind in map / filter_map / filter; inner iterator value; closure value"""
-    __slots__ = ('kind', 'inner', 'clo')
+    __slots__ = ('kind', 'inner', 'clo', 'state')
 
     def __init__(self, kind, inner, clo):
         self.kind, self.inner, self.clo = kind, inner, clo
+        self.state = None
 
 
 class Cursor:
